@@ -124,8 +124,13 @@ def gen_schema(rng, broken=False):
     return sc
 
 
+# every C0 control character and DEL as \\uXXXX escapes, plus quotes/backslashes/newlines (string printing)
+CTRL_STRINGS = ['"a\\u%04X b"' % c for c in list(range(0, 32)) + [127]] + [
+    '"q\\"uote"', '"back\\\\slash"', '"line\\nbreak"', '"tab\\there"', '"\\u00e9\\u4e2d"', '"""multi\n  line\n"""']
+
+
 LITERALS = {
-    "Int": ["1", "0", "-7", "null"], "String": ['"x"', '""', '"a b"', '"""blk"""', "null"], "Int!": ["2", "42"],
+    "Int": ["1", "0", "-7", "null"], "String": ['"x"', '""', '"a b"', '"""blk"""', "null"] + CTRL_STRINGS, "Int!": ["2", "42"],
     "In": ["{k: 1}", "{k: 1, j: [\"q\"]}", "{nest: {k: 2}}", "{}", "null"], "[Int!]": ["[1, 2]", "[]", "3", "null"],
     "E": ["X", "Y", "null"], "Boolean!": ["true", "false"],
 }
@@ -414,3 +419,40 @@ def chain_doc(n, cyclic=False):
         nxt = "...F%d" % (i + 1) if i + 1 < n else ("...F0" if cyclic else "id")
         defs.append("fragment F%d on A { %s }" % (i, nxt))
     return "\n".join(defs) + "\n"
+
+
+def context_matrix(sch):
+    """Systematic documents: each kind of single mistake placed in each kind of context (operation root, untyped
+    inline fragment, untyped inline fragment with a directive, typed inline fragment, named fragment, nested object,
+    untyped inline fragment inside a named fragment).  Exactly one mistake per document, so a validator that skips
+    a context accepts the document."""
+    root = sch.roots.get("query", "Query")
+    if not {"a", "n", "fa"} <= set(sch.fields.get(root, [])) or not {"n", "b", "fa"} <= set(sch.fields.get("A", [])):
+        return []
+    mistakes = {
+        "composite-without-subselection": ("a", "b"),
+        "leaf-with-subselection": ("n { x }", "n { x }"),
+        "undefined-variable": ("fa(x: $undef)", "fa(x: $undef)"),
+        "undefined-field": ("zz", "zz"),
+        "undefined-fragment": ("...nope", "...nope"),
+        "unknown-argument": ("fa(zz: 1)", "fa(zz: 1)"),
+        "wrong-literal": ('fa(x: "s")', 'fa(x: "s")'),
+        "undefined-directive": ("n @nodir", "n @nodir"),
+        "none": ("n", "n"),
+    }
+    docs = []
+    for _, (at_root, in_a) in sorted(mistakes.items()):
+        docs += [
+            "{ %s }" % at_root,
+            "{ ... { %s } }" % at_root,
+            "{ ... @include(if: true) { %s } }" % at_root,
+            "{ ... on %s { %s } }" % (root, at_root),
+            "{ ...F } fragment F on %s { %s }" % (root, at_root),
+            "{ ...F } fragment F on %s { ... { %s } }" % (root, at_root),
+            "{ a { %s } }" % in_a,
+            "{ a { ... { %s } } }" % in_a,
+            "{ a { ... on A { %s } } }" % in_a,
+            "{ ... { a { ... { %s } } } }" % in_a,
+            "query Q($v: Int) { ... { fa(x: $v) %s } }" % at_root,
+        ]
+    return docs
